@@ -1,5 +1,6 @@
 """Builtins, methods of builtin types, and the assumed contracts of the standard library (DESIGN.md section 8)."""
 from __future__ import annotations
+import ast
 import z3
 from .values import *
 from . import ops
@@ -899,6 +900,16 @@ def x_replace(I, args, kwargs):
     if not isinstance(o, SObj):
         raise OutsideSubset("dataclasses.replace on non-object")
     r = SObj(o.cls, dict(o.fields), o.lazy, dict(o.ghost))
+    if hasattr(o.cls, "dataclass_fields") and o.cls.is_dataclass:
+        # fields declared with init=False are not copied: the new object holds what its constructor puts there (the default / the
+        # factory's fresh value, materialised on first access); __post_init__ of the copy is NOT run (assumption of the model)
+        for (n, ann, dflt, owner) in o.cls.dataclass_fields():
+            if dflt is not None and isinstance(dflt, ast.Call) and ast.unparse(dflt.func) in ("field", "dataclasses.field") \
+                    and any(kw.arg == "init" and ast.literal_eval(kw.value) is False for kw in dflt.keywords):
+                if n in kwargs:
+                    from .interp import PyRaise
+                    raise PyRaise(ExcValue("ValueError", (f"field {n} is declared with init=False, it cannot be specified with replace()",)))
+                r.fields.pop(n, None)
     r.fields.update(kwargs)
     return r
 
